@@ -560,7 +560,7 @@ func (rr *routerRun) extraEvents(cl *sim.Cluster) []sim.Event {
 			key := fmt.Sprintf("conflict %s", m.Key())
 			evs = append(evs, sim.Event{Key: key, Kind: "conflict", Fault: true, Msg: nil, Apply: func(cl *sim.Cluster) error {
 				rr.conflicts++
-				alt := &sim.Msg{From: m.From, To: m.To, Link: m.Link, Copy: cl.Net.NextCopy(m), Kind: sim.KindConflict,
+				alt := &sim.Msg{From: m.From, To: m.To, Stream: m.Stream, Link: m.Link, Copy: cl.Net.NextCopy(m), Kind: sim.KindConflict,
 					Bytes: encodeEnvelope(env.CorrelationID, append(append([]byte(nil), env.Payload...), []byte("|ALTERED")...))}
 				cl.Net.Add(alt)
 				if err := cl.Net.Hand(alt, false); err != nil {
